@@ -22,6 +22,10 @@ import (
 
 	"verifharness/conc"
 	"verifharness/vt"
+
+	"github.com/tink-crypto/tink-go/v2/aead"
+	"github.com/tink-crypto/tink-go/v2/core/registry"
+	"github.com/tink-crypto/tink-go/v2/keyset"
 )
 
 type result struct {
@@ -130,7 +134,7 @@ func scenario(w *vt.Writer, t *conc.Target, ops []*op, G, K int, sc int) {
 			gr := vt.Rng(int64(sc)*4099 + int64(g)*17 + 5)
 			sched := make([]*op, K)
 			for i := range sched {
-				if gr.Intn(4) < 3 {
+				if gr.Intn(4) < 3 || nClass == len(ops) {
 					sched[i] = ops[gr.Intn(nClass)]
 				} else {
 					sched[i] = ops[nClass+gr.Intn(len(ops)-nClass)]
@@ -202,9 +206,10 @@ func runPrims(out, only string, gs []int) {
 	ts := conc.Targets(full)
 	sc := 0
 	nt := 0
+	nmk := 0
 	for i := range ts {
 		t := &ts[i]
-		if only != "" && only != t.Name {
+		if only != "" && only != t.Name && only != t.Name+" (own key per goroutine)" {
 			continue
 		}
 		h, _, err := conc.NewHandle(t.Params)
@@ -217,9 +222,47 @@ func runPrims(out, only string, gs []int) {
 			sc++
 			scenario(w, t, ops, G, kFor(t, G, full), sc+int(vt.Seed())*1000)
 		}
+		// ---- one key per goroutine, all of this type URL: the registry's singleton key manager is the shared object
+		if multiKeyClasses(t.Class) && hasKeyManagers(h) {
+			nmk++
+			nk := 4
+			if full {
+				nk = 8
+			}
+			if t.Slow || t.Cost == 2 {
+				nk = 2
+			}
+			keys := ownKeys(t, nk, sc+int(vt.Seed())*1000)
+			for _, G := range gs {
+				sc++
+				k := kFor(t, G, full) / 2
+				if k < 2 {
+					k = 2
+				}
+				multiKeyScenario(w, t, keys, G, k, sc+int(vt.Seed())*1000)
+			}
+		}
+	}
+	// ---- shared KMS envelope AEADs over an in-process KEK
+	for _, et := range envelopeTargets() {
+		if only != "" && only != et.name {
+			continue
+		}
+		kt := conc.Find(ts, "AESGCM256/NO_PREFIX")
+		kh, _, err := conc.NewHandle(kt.Params)
+		must(err, "KEK")
+		kek, err := aead.New(kh)
+		must(err, "KEK primitive")
+		pseudo := &conc.Target{Name: et.name, Class: "aead", Kind: "aead"}
+		ops := envelopeOps(et.dek, kek)
+		nt++
+		for _, G := range gs {
+			sc++
+			scenario(w, pseudo, ops, G, kFor(pseudo, G, full), sc+int(vt.Seed())*1000)
+		}
 	}
 	w.Close()
-	fmt.Printf("c18: %d events, %d shared objects x G in %v\n", w.Count(), nt, gs)
+	fmt.Printf("c18: %d events, %d shared objects + %d key types with one key per goroutine x G in %v\n", w.Count(), nt, nmk, gs)
 }
 
 func main() {
@@ -279,4 +322,18 @@ func selfRace() {
 	}
 	wg.Wait()
 	fmt.Println("c18: selfrace", shared > 0)
+}
+
+// hasKeyManagers reports whether the key's type URL (and its public key's) is served by the global
+// key-manager registry (the newest key types are not).
+func hasKeyManagers(h *keyset.Handle) bool {
+	if _, err := registry.GetKeyManager(h.KeysetInfo().GetKeyInfo()[0].GetTypeUrl()); err != nil {
+		return false
+	}
+	if pub, err := h.Public(); err == nil {
+		if _, err := registry.GetKeyManager(pub.KeysetInfo().GetKeyInfo()[0].GetTypeUrl()); err != nil {
+			return false
+		}
+	}
+	return true
 }
